@@ -295,10 +295,10 @@ theorem SideOK.of_handle {x : SideSt} (h : SideOK x) (fails : Item → Bool) (is
         have := (h2 id).cbItem w hw2 v
         simpa [view, View.cbItem] using this
       split
-      · refine SideOK.of_localClose ?_ _ _ _
-        split
-        · exact h3.congr (fun _ => rfl)
-        · exact h3
+      · split
+        · refine SideOK.of_localClose ?_ _ _ _
+          exact h3.congr (fun _ => rfl)
+        · exact h3.of_epilogue false
       · exact h3
     · split
       · rename_i hreg hq
@@ -603,7 +603,8 @@ theorem C10_endmarker_once {st : State} (p : Side) (id : Nat) (h : CbInv st)
   exact ⟨count_endmarker_le_one h2, getLast_of_EndLast h2⟩
 
 /-- a requested endmarker has been delivered once the conversation ended at this side — by the
-peer's close / error / last-message frame, by a local close, or by connection loss / termination;
+peer's close / error / last-message frame, by a local close, or by the receiver epilogue (connection loss / termination / a callback raising after
+the IO was closed);
 also when the local channel object was dropped -/
 theorem C10_endmarker_eventually {st : State} (p : Side) (id : Nat) (h : CbInv st)
     (hw : (st.side p).cbWants id = some true) (he : (st.side p).ended id = true)
